@@ -56,6 +56,9 @@ func (t *TxnOffsetCommitResponse) decode(pd packetDecoder, version int16) (err e
 		if err != nil {
 			return err
 		}
+		if m < 0 {
+			return errInvalidArrayLength
+		}
 
 		t.Topics[topic] = make([]*PartitionError, m)
 
